@@ -488,6 +488,18 @@ def rule_parse_failures(ctx, rid="R19.7"):
     for f, call, raises in loader_funcs(prog):
         cfg = cfg_of(f)
         n = [x for x in cfg.live if any(c is call for (c, _t) in calls_at(calls, f, x))][0]
+        if "JSONDecodeError" in raises:
+            # the parser must be the JSON parser: an option that widens the accepted language (strict=False lets raw control
+            # characters through) or rewrites values (hooks) makes a non-JSON file pass without its diagnostic
+            opts = [k for k in call.keywords if not (k.arg == "strict" and isinstance(k.value, ast.Constant) and k.value.value is True)]
+            extra = call.args[1:]
+            if opts or extra:
+                what = ",".join(sorted((k.arg or "**") for k in opts)) or "positional"
+                r.fail("%s|parser-option|%s" % (f.qual, what), site(f, call),
+                       "`%s` changes what the parser accepts or returns (%s): a file that is not JSON no longer yields its parsing "
+                       "diagnostic, or the document validated is not the one in the file" % (norm(call)[:50], what))
+            else:
+                r.ok(site(f, call), "plain JSON parser, no options")
         trys = [t for (t, wh) in n.trys if wh == "body"]
         for exc in raises:
             hs = [h for t in trys for h in t.handlers if handler_names(h) is None or any(covers(x, exc) for x in handler_names(h))]
